@@ -9,7 +9,26 @@ import time
 
 from registry import ROOT
 
-TARGET_DIR = os.environ.get("VERIF_KANI_TARGET", os.path.join(ROOT, ".cache", "kani-target"))
+# Warm cache of third-party crates compiled by the Kani compiler (built by ./setup.sh). Every run
+# works on a private COPY of it inside its scratch directory (removed at exit), so concurrent runs
+# never share a mutable target directory and nothing accumulates.
+BASE_TARGET = os.environ.get("VERIF_KANI_TARGET", os.path.join(ROOT, ".cache", "kani-base"))
+TARGET_DIR = BASE_TARGET
+
+
+def private_target(scratch, log):
+    """copy the warm base cache into the scratch dir and make it the target dir of this run"""
+    global TARGET_DIR
+    dest = os.path.join(scratch, "target")
+    if os.path.isdir(BASE_TARGET):
+        t0 = time.time()
+        subprocess.run(["rsync", "-a", "--delete", BASE_TARGET.rstrip("/") + "/", dest + "/"], check=True)
+        log.append("target dir: private copy of %s (%.1fs)" % (BASE_TARGET, time.time() - t0))
+    else:
+        os.makedirs(dest, exist_ok=True)
+        log.append("target dir: no warm cache at %s, cold build" % BASE_TARGET)
+    TARGET_DIR = dest
+    return dest
 RSS_CAP_KB = int(os.environ.get("VERIF_RSS_CAP_GB", "20")) * 1024 * 1024
 JOBS = int(os.environ.get("VERIF_JOBS", "16"))
 
